@@ -37,7 +37,8 @@ RULE = ("programs of the core language, structured profile (with-blocks, start_t
         "the norm; 1 program in 6 is widened (10-14, sometimes 20-26, extra children in one action, some with grand-children: two-digit level components); all logged through one "
         "MemoryLogger; per program: of_type for every action type present and one absent, LoggedMessage.of_type for every message "
         "type, 6-14 assertHasAction / assertHasMessage expectations (matching subsets, perturbed value, missing key, wrong outcome, "
-        "the fields of a later entry of the same type); non-trivial = finished log with depth >= 2 and (>= 2 tasks or a type with >= 2 "
+        "absent key expected as None / 0 / empty string / False, present key expected as None, the fields of a later entry of the same type); about 1 logged "
+        "field value in 8 is None; non-trivial = finished log with depth >= 2 and (>= 2 tasks or a type with >= 2 "
         "entries); distinct by canonical hash of the program")
 TRUSTED = ["harness/sysgen.py + harness/sysinterp.py (program generator and interpreter against the real API)",
            "field values are compared by the model through an injective rendering; the expectations generated here only use values "
@@ -116,9 +117,23 @@ def repeat_types(prog):
                 repeat_types(s[k])
 
 
+def none_values(rng, prog):
+    """Some logged fields get the value None ({"z": null}), so that "key present with value None" and "key absent"
+    both occur in the captured dictionaries."""
+    for s in prog:
+        for fs in ((s.get("spec") or {}).get("fields"), (s.get("ms") or {}).get("fields"), s.get("fs")):
+            for f in fs or []:
+                if rng.random() < 0.12:
+                    f[1] = {"z": None}
+        for k in ("body", "handler"):
+            if k in s:
+                none_values(rng, s[k])
+
+
 def gen_program(rng):
     case = sysgen.gen_case(rng, PROFILE)
     repeat_types(case["prog"])
+    none_values(rng, case["prog"])
     wide = rng.random() < 1 / 6
     if wide:
         widen(rng, case["prog"])
@@ -134,10 +149,13 @@ def run_program(case):
     mem = _output.MemoryLogger(json_default=repr)
     saved = _output._DEFAULT_LOGGER
     _output._DEFAULT_LOGGER = mem
+    value = sysinterp.Runtime.value
+    sysinterp.Runtime.value = lambda self, fv: None if "z" in fv else value(self, fv)  # {"z": null} is the value None
     try:
         result, rt = sysinterp.run_case(case)
     finally:
         _output._DEFAULT_LOGGER = saved
+        sysinterp.Runtime.value = value
     return mem, result
 
 
@@ -408,9 +426,16 @@ def gen_asserts(rng, msgs, atypes, mtypes):
     def perturb(exp, d):
         exp = [list(p) for p in exp]
         r = rng.random()
-        if exp and r < 0.5:
+        if r < 0.3:
+            # a key the dictionary does not have, expected with None or another falsy value: absent is not "present with None"
+            exp.append(["absent_key", ["lit", rng.choice([None, None, None, 0, "", False])]])
+        elif r < 0.4 and d:
+            # a key the dictionary has, expected to be None (matches only if the logged value is None)
+            ks = [k for k in d if k not in [p[0] for p in exp] and k != "timestamp"]
+            exp.append([rng.choice(ks), ["lit", None]] if ks else ["absent_key", ["lit", None]])
+        elif exp and r < 0.65:
             rng.choice(exp)[1] = ["lit", "¬not-this-value"]
-        elif r < 0.8:
+        elif r < 0.85:
             exp.append(["absent_key", ["lit", 1]])
         else:
             ks = [k for k in (d or {}) if k not in [p[0] for p in exp]]
